@@ -354,11 +354,6 @@ func buildOverlay(o *Oblig, withReplayTest bool) (map[string][]byte, string) {
 			if rw.Optional {
 				continue
 			}
-			if out, ok := applyRewriteFallback(p, src, rw); ok {
-				ov[p] = out
-				doneRw[key] = true
-				continue
-			}
 			// the code was moved to another file of the package
 			moved := false
 			for _, q := range siblingGoFiles(p) {
@@ -375,6 +370,13 @@ func buildOverlay(o *Oblig, withReplayTest bool) (map[string][]byte, string) {
 					rewriteNotes = append(rewriteNotes, fmt.Sprintf("rewrite of %q: found in %s instead of %s", rw.Old, q, p))
 					moved = true
 					break
+				}
+			}
+			if !moved {
+				if out, ok := applyRewriteFallback(p, src, rw); ok {
+					ov[p] = out
+					doneRw[key] = true
+					continue
 				}
 			}
 			if !moved {
@@ -398,6 +400,20 @@ func buildOverlay(o *Oblig, withReplayTest bool) (map[string][]byte, string) {
 		}
 		if all {
 			ov[p] = bytes.ReplaceAll(src, []byte(rw.Old), []byte(rw.New))
+			// listed k times = "every occurrence": when the file now holds fewer than k, the others
+			// were moved to sibling files of the package; follow them
+			if missing := seenRw[key] - bytes.Count(src, []byte(rw.Old)); missing > 0 && !rw.All {
+				for _, q := range siblingGoFiles(p) {
+					s2, ok := ov[q]
+					if !ok {
+						s2, _ = os.ReadFile(q)
+					}
+					if bytes.Contains(s2, []byte(rw.Old)) {
+						ov[q] = bytes.ReplaceAll(s2, []byte(rw.Old), []byte(rw.New))
+						rewriteNotes = append(rewriteNotes, fmt.Sprintf("rewrite of %q: %d listed occurrence(s) missing in %s, replaced in %s", rw.Old, missing, p, q))
+					}
+				}
+			}
 		} else {
 			ov[p] = bytes.Replace(src, []byte(rw.Old), []byte(rw.New), 1)
 		}
